@@ -220,5 +220,5 @@ def translate(repo_root):
 
 
 STREAMS = [
-    Stream("faulted_races", gen, run, quick=320, thorough=100000, shards=16),
+    Stream("faulted_races", gen, run, quick=800, thorough=100000, shards=16),
 ]
